@@ -24,7 +24,10 @@ Record ccase := {
   k_mode : mode;
   k_sig : sig;                     (* including the receiver (self / cls) *)
   k_levels : list level;
-  k_invs : option (list contract); (* invariants of the class (check_on = CALL) *)
+  k_invs : option (list contract); (* invariants of the class that are checked around calls (check_on CALL / ALL) *)
+  k_invs_all : list Z;             (* those of [k_invs] declared for calls and attribute assignments (ALL) *)
+  k_invs_set : list contract;      (* further invariants, declared after those, for attribute assignments only (SETATTR):
+                                      evaluated after the constructor, never around a call *)
   k_args : list pv;                (* including the receiver *)
   k_kwargs : dict;
   k_tables : tables;
@@ -86,6 +89,23 @@ Definition eff_post (ls : list level) : list contract := flat_map l_post ls.
 
 Definition case_user (c : ccase) : user := user_of (k_tables c).
 
+(** [__invariants_on_setattr__]: when it is not empty the class has a checking [__setattr__] *)
+Definition setattr_list (c : ccase) : list contract :=
+  match k_invs c with
+  | Some invs => filter (fun i => existsb (Z.eqb (cid i)) (k_invs_all c)) invs ++ k_invs_set c
+  | None => []
+  end.
+
+(** the invariants evaluated around a call of this kind.  An assignment to a property in a class with a checking
+    [__setattr__] runs the property's setter *inside* that wrapper: the instance is marked as being checked, the
+    setter's own invariant checks are skipped, and what is evaluated is the attribute-assignment list (D30). *)
+Definition around_invs (c : ccase) : list contract :=
+  match k_invs c, k_kind c with
+  | Some invs, KPropSet => if is_nil (setattr_list c) then invs else setattr_list c
+  | Some invs, KMethod | Some invs, KPropGet | Some invs, KPropDel => invs
+  | _, _ => []
+  end.
+
 Definition case_M (c : ccase) : M pv :=
   let U := case_user c in
   let inner :=
@@ -96,9 +116,9 @@ Definition case_M (c : ccase) : M pv :=
                         (eff_post (k_levels c)) (k_args c) (k_kwargs c) in
   let self := hd PNone (k_args c) in
   match k_invs c, k_kind c with
-  | Some invs, KMethod | Some invs, KPropGet | Some invs, KPropSet | Some invs, KPropDel =>
-      method_call U invs self inner
-  | Some invs, KInit => init_call U invs self inner
+  | Some _, KMethod | Some _, KPropGet | Some _, KPropSet | Some _, KPropDel =>
+      method_call U (around_invs c) self inner
+  | Some invs, KInit => init_call U (invs ++ k_invs_set c) self inner
   | _, _ => inner
   end.
 
